@@ -54,7 +54,9 @@ func (c17) Runs(tier string) int {
 	}
 	return 4000
 }
-func (c17) RequiredProbes(string) []string { return []string{"overlap", "probe_authenticated", "probe_rejected"} }
+func (c17) RequiredProbes(string) []string {
+	return []string{"overlap", "probe_authenticated", "probe_rejected"}
+}
 
 func (c17) Gen(seed uint64, run int, tier string) *core.Case {
 	r := sim.Rng(seed, "gen")
